@@ -1,3 +1,4 @@
+\* 2 threads x 2 aggregates x 2 operations, commands / reads / snapshots / history
 CONSTANTS
   t1 = t1
   t2 = t2
